@@ -272,12 +272,10 @@ func (g GrpcProxyInterceptor) lookup(ctx context.Context, fullMethodName string)
 		return nil, fmt.Errorf("error extracting metadata from request")
 	}
 
-	reqUrl, err := url.ParseRequestURI(fullMethodName)
-
-	if err != nil {
-		log.Print("[WARN] Error parsing grpc request url ", fullMethodName)
-		return nil, fmt.Errorf("error parsing request url")
-	}
+	// the method path is matched as it is: it is the name of a method and
+	// not a URL. Percent signs and question marks in it have no meaning,
+	// the backend is asked for the very same text.
+	reqUrl := &url.URL{Path: fullMethodName}
 
 	headers := http.Header{}
 
